@@ -388,7 +388,22 @@ fn run_case(case: &Value, tokio_rt: &tokio::runtime::Runtime) -> Value {
 
     let mut out = json!({"id": case["id"], "steps": results});
     if want_events {
-        let evs: Vec<Value> = glaredb_core::verif::take_events()
+        // Worker threads finish their bookkeeping (task post-processing) after the client already has its
+        // result: wait until no new event arrives for a few milliseconds before cutting the trace.
+        let mut raw = glaredb_core::verif::take_events();
+        let mut stable = 0;
+        let t0 = std::time::Instant::now();
+        while stable < 4 && t0.elapsed() < std::time::Duration::from_millis(500) {
+            std::thread::sleep(std::time::Duration::from_millis(3));
+            let more = glaredb_core::verif::take_events();
+            if more.is_empty() {
+                stable += 1;
+            } else {
+                raw.extend(more);
+                stable = 0;
+            }
+        }
+        let evs: Vec<Value> = raw
             .into_iter()
             .map(|s| serde_json::from_str(&s).unwrap_or(json!({"bad": s})))
             .collect();
